@@ -994,9 +994,9 @@ func defineIdentifierTypes() {
 }
 
 func parseAuthorization(p *parser) (auth ast.Authorization, err error) {
-	keyword := p.currentTokenSource()
-	switch string(keyword) {
-	case KeywordMapping:
+	// NOTE: only get the source of the current token if it is an identifier:
+	// it might be e.g. the EOF token, which has no source
+	if p.isToken(p.current, lexer.TokenIdentifier, KeywordMapping) {
 		keywordPos := p.current.StartPos
 		// Skip the keyword
 		p.nextSemanticToken()
@@ -1007,8 +1007,7 @@ func parseAuthorization(p *parser) (auth ast.Authorization, err error) {
 		}
 		auth = ast.NewMappedAccess(entitlementMapName, keywordPos)
 		p.skipSpaceAndComments()
-
-	default:
+	} else {
 		entitlements, err := parseEntitlementList(p)
 		if err != nil {
 			return nil, err
